@@ -2,7 +2,7 @@
   C01 — HTTP/1 forwarding is framing-consistent: property theorems.
   Model: MitmVerif/Model/C01.lean (mitmproxy's functions + `Ref`, the strict RFC 9112 reader used as SPEC).
 -/
-import MitmVerif.Lemmas.C01
+import MitmVerif.Lemmas.C01_Roundtrip
 namespace MitmVerif.Props.C01
 open MitmVerif MitmVerif.C01
 
@@ -365,12 +365,15 @@ example : Ref.framing [(sCL, [53]), (sCL, [54])] sHttp11 .request [] = .error (.
 example : Ref.framing [(sTE, [103, 122, 105, 112])] sHttp11 .request [] = .error (.ambiguous Ref.cTeReqNotChunked) := by rfl
 
 
-/-! ### Round trip of forwarded messages — full statements (NOT proved in Lean, see level_note)
+/-! ### Round trip of forwarded messages
 
-The statements below are what DESIGN §5 C01 asks for.  They are kept as definitions so that the obligation stays visible;
-they are not discharged (they need the inverse of `hexDigits`/`assembleFields` against `Ref.headLines`/`Ref.chunkedBody`).
-On the real code they are checked by the direct oracle of harness/c01.py (independent Python reference parser on the bytes
-written by the real layer) and, for the model, by the `fwdreq`/`fwdresp` + `refreqs`/`refresp` correspondence. -/
+`ForwardRequestRoundtrip` / `ForwardStreamRoundtrip` below are the full statements of DESIGN §5 C01 (kept as definitions).
+Proved: `forward_request_roundtrip_nofold` (= the full statement, incl. edit_stable, for every request whose field values
+contain no obs-fold: Content-Length, no-body and chunked re-framing) and `forward_stream_roundtrip_nofold` (pipelined
+messages, by induction).  Not proved: requests whose values contain obs-fold (the fields are then read back as `Ref.unfold`
+of the recorded ones; checked on an instance by `rfl` below and by the oracle on the real layer), and the response-side
+analogue for `relayResponse` (its framing decision is covered by `framing_agrees`, the bytes by the oracle and the
+`fwdresp`/`refresp` correspondence). -/
 
 /-- a body is consistent with the request's headers (what `set_content` maintains): chunked → any body; otherwise the
     Content-Length value is the body length, and no Content-Length means no body -/
@@ -380,9 +383,12 @@ def BodyConsistent (r : ReqHead) (body : Bytes) : Prop :=
   | some (.len n) => body.length = n
   | _ => False
 
+/-- what `_read_request_line` (`line.split()`) guarantees for the parts of the request line, and `_read_headers`
+    (lines are split at LF) for the names -/
 def RequestLineOk (r : ReqHead) : Prop :=
-  Ref.noWs r.method = true ∧ Ref.noWs (requestTarget r) = true ∧ versionOk r.version = true ∧
-  (∀ f ∈ r.fields, (10 : UInt8) ∉ f.1)
+  r.method ≠ [] ∧ (∀ c ∈ r.method, isPyWs c = false) ∧
+  requestTarget r ≠ [] ∧ (∀ c ∈ requestTarget r, isPyWs c = false) ∧
+  versionOk r.version = true ∧ (∀ f ∈ r.fields, (10 : UInt8) ∉ f.1)
 
 /-- forward_request_roundtrip / edit_stable: for every request the proxy would forward (validate_headers true — whether the
     fields come from the wire or from an addon edit) and every consistent body, the reference reader reads the written
@@ -401,6 +407,305 @@ def ForwardStreamRoundtrip : Prop :=
     (Ref.parseRequests (wire.length + 1) wire).2 = none ∧
     (Ref.parseRequests (wire.length + 1) wire).1.map (fun m => (m.a, m.b, m.body)) =
       ms.map (fun m => (m.1.method, requestTarget m.1, m.2))
+
+private theorem noPyWs_facts {b : Bytes} (hne : b ≠ []) (h : ∀ c ∈ b, isPyWs c = false) :
+    (32 : UInt8) ∉ b ∧ (13 : UInt8) ∉ b ∧ (10 : UInt8) ∉ b ∧ Ref.noWs b = true := by
+  refine ⟨fun hm => by have := h _ hm; revert this; decide, fun hm => by have := h _ hm; revert this; decide,
+          fun hm => by have := h _ hm; revert this; decide, ?_⟩
+  simp only [Ref.noWs, Bool.and_eq_true, Bool.not_eq_true', List.all_eq_true]
+  refine ⟨by cases b <;> simp at hne ⊢, fun c hc => ?_⟩
+  have := h c hc
+  have key : ∀ n : Fin 256, isPyWs (UInt8.ofNat n.val) = false →
+      (!(decide (UInt8.ofNat n.val = 9) || decide (UInt8.ofNat n.val = 11) || decide (UInt8.ofNat n.val = 12))) = true := by
+    decide +kernel
+  have := key ⟨c.toNat, UInt8.toNat_lt c⟩ (by simpa using this)
+  simpa using this
+
+private theorem version_facts {v : Bytes} (h : versionOk v = true) :
+    (32 : UInt8) ∉ v ∧ (13 : UInt8) ∉ v ∧ (10 : UInt8) ∉ v := by
+  unfold versionOk at h
+  split at h
+  · rename_i a b
+    simp only [Bool.and_eq_true] at h
+    have ha : a ≠ 32 ∧ a ≠ 13 ∧ a ≠ 10 := by
+      refine ⟨?_, ?_, ?_⟩ <;> (intro e; subst e; exact absurd h.1 (by decide))
+    have hb : b ≠ 32 ∧ b ≠ 13 ∧ b ≠ 10 := by
+      refine ⟨?_, ?_, ?_⟩ <;> (intro e; subst e; exact absurd h.2 (by decide))
+    simp only [List.mem_cons, List.not_mem_nil, or_false, not_or]
+    refine ⟨⟨by decide, by decide, by decide, by decide, by decide, fun e => ha.1 e.symm, by decide, fun e => hb.1 e.symm⟩,
+            ⟨by decide, by decide, by decide, by decide, by decide, fun e => ha.2.1 e.symm, by decide, fun e => hb.2.1 e.symm⟩,
+            ⟨by decide, by decide, by decide, by decide, by decide, fun e => ha.2.2 e.symm, by decide, fun e => hb.2.2 e.symm⟩⟩
+  · simp at h
+
+private theorem requestLine_assembled {m t v : Bytes} (hm : m ≠ []) (hmw : ∀ c ∈ m, isPyWs c = false)
+    (ht : t ≠ []) (htw : ∀ c ∈ t, isPyWs c = false) (hv : versionOk v = true) :
+    Ref.requestLine (m ++ [32] ++ t ++ [32] ++ v) = some (m, t, v) ∧
+    cleanLine (m ++ [32] ++ t ++ [32] ++ v) ∧ m ++ [32] ++ t ++ [32] ++ v ≠ [] := by
+  obtain ⟨m32, m13, m10, mws⟩ := noPyWs_facts hm hmw
+  obtain ⟨t32, t13, t10, tws⟩ := noPyWs_facts ht htw
+  obtain ⟨v32, v13, v10⟩ := version_facts hv
+  refine ⟨?_, ⟨?_, ?_⟩, by cases m <;> simp at hm ⊢⟩
+  · have : m ++ [32] ++ t ++ [32] ++ v = m ++ 32 :: (t ++ 32 :: v) := by simp
+    simp only [Ref.requestLine, this, splitOn_append_sep m32, splitOn_append_sep t32, splitOn_no_sep v32, mws, tws, hv,
+      Bool.and_self, ↓reduceIte]
+  · simp [m13, t13, v13]
+  · simp [m10, t10, v10]
+
+private theorem valueOk_no_nul : ∀ {v : Bytes}, valueOk v = true → (0 : UInt8) ∉ v
+  | [], _ => by simp
+  | [c], h => by
+    simp only [valueOk] at h
+    intro hm; simp at hm; subst hm; simp at h
+  | c :: d :: rest, h => by
+    have h' := h
+    rw [valueOk] at h
+    have h0 : c ≠ 0 := by intro e; subst e; simp at h
+    have hr : valueOk (d :: rest) = true := by
+      by_cases h13 : c = 13
+      · simp [h13] at h; exact h.2
+      · by_cases h10 : c = 10
+        · simp [h10] at h; exact h.2
+        · simpa [h0, h13, h10] using h
+    have ih := valueOk_no_nul hr
+    intro hm
+    simp only [List.mem_cons] at hm ih
+    rcases hm with e | e
+    · exact h0 e.symm
+    · exact ih e
+
+/-- the reference reader reads an assembled request head back (request line parts whitespace-free, names tokens,
+    values without line break and without surrounding OWS) -/
+private theorem head_parse (r : ReqHead) (hv : validateHeaders .request r.version [] r.fields = true)
+    (hl : RequestLineOk r) (hplain : ∀ f ∈ r.fields, cleanLine f.2 ∧ stripBy isOws f.2 = f.2) (tail : Bytes) :
+    ∃ line, Ref.headLines ((assembleRequestHead r ++ tail).length + 1) (assembleRequestHead r ++ tail) =
+        .ok (line :: r.fields.map fieldLine, tail) ∧
+      Ref.requestLine line = some (r.method, requestTarget r, r.version) ∧
+      Ref.fields (r.fields.map fieldLine) = .ok r.fields := by
+  obtain ⟨hm, hmw, ht, htw, hver, hnames⟩ := hl
+  obtain ⟨hreq, hclean, hlne⟩ := requestLine_assembled hm hmw ht htw hver
+  have hvc := (validate_cases hv).1
+  have hfields : ∀ f ∈ r.fields, isToken f.1 = true ∧ stripBy isOws f.2 = f.2 := by
+    intro f hf
+    refine ⟨?_, (hplain f hf).2⟩
+    have h1 := (hvc f hf).1
+    have h2 : dropFinalLF f.1 = f.1 := by
+      apply dropFinalLF_id
+      intro e
+      exact hnames f hf (List.mem_of_getLast? e)
+    simpa [nameOk, h2] using h1
+  obtain ⟨line, hline⟩ : ∃ l, l = r.method ++ [32] ++ requestTarget r ++ [32] ++ r.version := ⟨_, rfl⟩
+  rw [← hline] at hreq hclean hlne
+  have hwire : assembleRequestHead r ++ tail = renderLines (line :: r.fields.map fieldLine) ++ crlf ++ tail := by
+    simp only [assembleRequestHead, assembleFields_eq, renderLines, hline, List.append_assoc]
+  have hlines : ∀ l ∈ line :: r.fields.map fieldLine, cleanLine l ∧ l ≠ [] := by
+    intro l hl
+    simp only [List.mem_cons, List.mem_map] at hl
+    rcases hl with rfl | ⟨f, hf, rfl⟩
+    · exact ⟨hclean, hlne⟩
+    · obtain ⟨hcol, h13, h10, hne, _⟩ := token_no_colon (hfields f hf).1
+      have hvv := (hplain f hf).1
+      refine ⟨⟨?_, ?_⟩, ?_⟩
+      · simp [fieldLine, colonSp, h13, hvv.1]
+      · simp [fieldLine, colonSp, h10, hvv.2]
+      · cases hn : f.1 with
+        | nil => exact absurd hn hne
+        | cons c cs => simp [fieldLine, hn]
+  refine ⟨line, ?_, hreq, ?_⟩
+  · rw [hwire]
+    apply headLines_render _ _ _ hlines
+    have := renderLines_length (line :: r.fields.map fieldLine)
+    simp only [List.length_append] at this ⊢
+    omega
+  · have := fieldsAux_render r.fields [] hfields
+    simp only [List.reverse_nil, List.nil_append] at this
+    rw [Ref.fields, this]
+    have hnul : (r.fields.all fun f => !f.2.contains 0) = true := by
+      apply List.all_eq_true.mpr
+      intro f hf
+      have := valueOk_no_nul (hvc f hf).2
+      simpa using this
+    simp only [hnul, ↓reduceIte]
+
+/-- **forward_request_roundtrip_partial** (requests without Transfer-Encoding, field values without obs-fold):
+    for every request that `validate_headers` accepts — from the wire or after addon edits (edit_stable) — whose request
+    line parts are whitespace-free, whose values contain no line break and no surrounding OWS, and every body of the
+    length the headers announce, the strict reference reader reads the bytes written by `Http1Client.send` back as
+    exactly this method, target, version, field list and body, and leaves exactly what follows. -/
+theorem forward_request_roundtrip_partial (r : ReqHead) (body rest : Bytes)
+    (hv : validateHeaders .request r.version [] r.fields = true) (hl : RequestLineOk r)
+    (hte : getAll r.fields sTE = [])
+    (hplain : ∀ f ∈ r.fields, cleanLine f.2 ∧ stripBy isOws f.2 = f.2)
+    (hb : BodyConsistent r body) :
+    ∃ fr, Ref.parseRequest (forwardRequest r body ++ rest) =
+      .ok (⟨r.method, requestTarget r, r.version, r.fields, body, fr⟩, rest) := by
+  have hnc : sendsChunked r.fields = false := by simp [sendsChunked, getJoined_none hte]
+  have hwire : forwardRequest r body ++ rest = assembleRequestHead r ++ (body ++ rest) := by
+    simp [forwardRequest, hnc, List.append_assoc]
+  obtain ⟨line, hhead, hreq, hflds⟩ := head_parse r hv hl hplain (body ++ rest)
+  obtain ⟨sz, fr, hsz, hfr, hag⟩ := framing_agrees .request r.version [] [] r.fields hv
+  have hsz' : requestBodySize r = some sz := by simpa [proxySize, requestBodySize] using hsz
+  unfold Ref.parseRequest
+  rw [hwire, hhead]
+  simp only [hreq, hflds, hfr]
+  unfold BodyConsistent at hb
+  rw [hsz'] at hb
+  cases sz with
+  | chunked =>
+    exfalso
+    simp [requestBodySize, sizeFromHeaders, getJoined_none hte] at hsz'
+    cases hc : getJoined r.fields sCL with
+    | none => simp [hc] at hsz'
+    | some cl =>
+      simp [hc] at hsz'
+      split at hsz'
+      · simp at hsz'
+      · cases hp : parseCL cl <;> simp [hp] at hsz'
+  | untilEof => exact absurd hb (by simp)
+  | len n =>
+    simp only at hb
+    cases fr with
+    | none =>
+      simp only [Agree] at hag
+      subst hag
+      have : body = [] := by cases body <;> simp at hb ⊢
+      subst this
+      exact ⟨.none, by simp⟩
+    | cl m =>
+      simp only [Agree] at hag
+      subst hag
+      refine ⟨.cl n, ?_⟩
+      have h1 : ¬ (body ++ rest).length < n := by simp; omega
+      simp only [h1, ↓reduceIte]
+      rw [List.take_append_of_le_length (by omega), List.drop_append_of_le_length (by omega)]
+      simp [← hb]
+    | chunked => simp [Agree] at hag
+    | eof => simp [Agree] at hag
+
+/-- **forward_request_roundtrip_chunked_partial** (requests with Transfer-Encoding, values without obs-fold): the body the
+    proxy buffered — whatever its length, also after an addon replaced it — is re-framed as one chunk plus the last-chunk,
+    and the strict reference reader reads head and body back exactly.
+    Together with `forward_request_roundtrip_partial` this is `ForwardRequestRoundtrip` for all requests whose field values
+    contain no obs-fold. -/
+theorem forward_request_roundtrip_chunked_partial (r : ReqHead) (body rest : Bytes)
+    (hv : validateHeaders .request r.version [] r.fields = true) (hl : RequestLineOk r)
+    (hte : getAll r.fields sTE ≠ [])
+    (hplain : ∀ f ∈ r.fields, cleanLine f.2 ∧ stripBy isOws f.2 = f.2) :
+    Ref.parseRequest (forwardRequest r body ++ rest) =
+      .ok (⟨r.method, requestTarget r, r.version, r.fields, body, .chunked⟩, rest) := by
+  -- validate_headers leaves exactly one Transfer-Encoding value, classified "chunked final"
+  obtain ⟨_, hc⟩ := validate_cases hv
+  rcases hc with ⟨t, cls, w, hte1, hcl, hver, hpt, hk⟩ | ⟨c, n, hte0, _, _⟩ | ⟨hte0, _⟩
+  · simp only at hk
+    subst hk
+    have hsc : sendsChunked r.fields = true := by
+      simp [sendsChunked, getJoined_single hte1, sendsChunked_of_parseTE hpt]
+    obtain ⟨sz, fr, hsz, hfr, hag⟩ := framing_agrees .request r.version [] [] r.fields hv
+    have hsz' : sz = .chunked := by
+      have htne : t ≠ [] := parseTE_nonempty hpt
+      simp [proxySize, sizeFromHeaders, getJoined_single hte1, htne, hpt] at hsz
+      exact hsz.symm
+    subst hsz'
+    have hfr' : Ref.framing r.fields r.version .request [] = .ok .chunked := by
+      cases fr <;> simp [Agree] at hag
+      exact hfr
+    let payload := (if body.isEmpty then [] else chunk body) ++ lastChunk
+    have hwire : forwardRequest r body ++ rest = assembleRequestHead r ++ (payload ++ rest) := by
+      simp [forwardRequest, hsc, payload, List.append_assoc]
+    obtain ⟨line, hhead, hreq, hflds⟩ := head_parse r hv hl hplain (payload ++ rest)
+    unfold Ref.parseRequest
+    rw [hwire, hhead]
+    simp only [hreq, hflds, hfr']
+    have hchunk : Ref.chunkedBody ((payload ++ rest).length + 1) (payload ++ rest) [] false = .ok (body, rest) := by
+      by_cases hb : body = []
+      · subst hb
+        have hl5 : (payload ++ rest).length + 1 = (rest.length + 4) + 2 := by simp [payload, lastChunk]
+        rw [hl5]
+        simpa [payload] using chunkedBody_last (rest.length + 4) [] rest
+      · have hbe : body.isEmpty = false := by cases body <;> simp at hb ⊢
+        have hp : payload ++ rest = chunk body ++ lastChunk ++ rest := by simp [payload, hbe]
+        rw [hp]
+        have : (chunk body ++ lastChunk ++ rest).length + 1 = ((chunk body ++ lastChunk ++ rest).length - 2) + 3 := by
+          simp [lastChunk]; omega
+        rw [this]
+        exact chunkedBody_chunk _ body rest hb
+    rw [hchunk]
+  · exact absurd hte0 hte
+  · exact absurd hte0 hte
+
+private theorem unfold_plain {v : Bytes} (h : cleanLine v ∧ stripBy isOws v = v) : Ref.unfold v = v := by
+  have hs : splitOn 10 v = [v] := splitOn_no_sep h.1.2
+  simp [Ref.unfold, hs, h.2]
+
+/-- a validated request whose values contain no obs-fold (and no surrounding OWS, as `_read_headers` leaves them) -/
+def NoFold (r : ReqHead) : Prop := ∀ f ∈ r.fields, cleanLine f.2 ∧ stripBy isOws f.2 = f.2
+
+/-- **forward_request_roundtrip_nofold**: `ForwardRequestRoundtrip` (and with it `edit_stable`: the hypothesis is only that
+    `validate_headers` holds for the fields that are sent) for every request without obs-fold in its field values -/
+theorem forward_request_roundtrip_nofold (r : ReqHead) (body rest : Bytes)
+    (hv : validateHeaders .request r.version [] r.fields = true) (hl : RequestLineOk r) (hnf : NoFold r)
+    (hb : BodyConsistent r body) :
+    ∃ fr, Ref.parseRequest (forwardRequest r body ++ rest) =
+      .ok (⟨r.method, requestTarget r, r.version, r.fields.map (fun f => (f.1, Ref.unfold f.2)), body, fr⟩, rest) := by
+  have hmap : r.fields.map (fun f => (f.1, Ref.unfold f.2)) = r.fields := by
+    have : ∀ f ∈ r.fields, (fun f : Field => (f.1, Ref.unfold f.2)) f = f := by
+      intro f hf; simp [unfold_plain (hnf f hf)]
+    rw [List.map_congr_left this]; simp
+  rw [hmap]
+  by_cases hte : getAll r.fields sTE = []
+  · exact forward_request_roundtrip_partial r body rest hv hl hte hnf hb
+  · exact ⟨.chunked, forward_request_roundtrip_chunked_partial r body rest hv hl hte hnf⟩
+
+/-- every forwarded request starts with a byte that is neither CR nor LF and is non-empty -/
+private theorem forward_head {r : ReqHead} (hl : RequestLineOk r) (body : Bytes) :
+    ∃ c tl, forwardRequest r body = c :: tl ∧ c ≠ 10 ∧ c ≠ 13 := by
+  obtain ⟨hm, hmw, _⟩ := hl
+  cases hmm : r.method with
+  | nil => exact absurd hmm hm
+  | cons c cs =>
+    have hc := hmw c (by rw [hmm]; simp)
+    refine ⟨c, cs ++ ([32] ++ requestTarget r ++ [32] ++ r.version ++ crlf ++ assembleFields r.fields ++ crlf ++
+        (if sendsChunked r.fields then (if body.isEmpty then [] else chunk body) ++ lastChunk else body)), ?_, ?_, ?_⟩
+    · simp [forwardRequest, assembleRequestHead, hmm, List.append_assoc]
+    · intro e; subst e; revert hc; decide
+    · intro e; subst e; revert hc; decide
+
+/-- **forward_stream_roundtrip_nofold** (induction over pipelined messages): the concatenation of what the proxy writes for a
+    list of validated, fold-free requests with consistent bodies is read by the reference reader as exactly that list — same
+    number and order, same method, target and body — and nothing is left over -/
+theorem forward_stream_roundtrip_nofold : ∀ (ms : List (ReqHead × Bytes)) (f : Nat),
+    (∀ m ∈ ms, validateHeaders .request m.1.version [] m.1.fields = true ∧ RequestLineOk m.1 ∧ NoFold m.1 ∧
+       BodyConsistent m.1 m.2) →
+    ms.length < f →
+    (Ref.parseRequests f (ms.map fun m => forwardRequest m.1 m.2).flatten).2 = none ∧
+    (Ref.parseRequests f (ms.map fun m => forwardRequest m.1 m.2).flatten).1.map (fun m => (m.a, m.b, m.fields, m.body)) =
+      ms.map (fun m => (m.1.method, requestTarget m.1, m.1.fields, m.2))
+  | [], f, _, hf => by
+    cases f with
+    | zero => omega
+    | succ f => simp [Ref.parseRequests]
+  | (r, body) :: ms, f, h, hf => by
+    cases f with
+    | zero => omega
+    | succ f =>
+      obtain ⟨hv, hl, hnf, hb⟩ := h (r, body) (by simp)
+      obtain ⟨ih1, ih2⟩ := forward_stream_roundtrip_nofold ms f (fun m hm => h m (by simp [hm])) (by simp at hf; omega)
+      obtain ⟨c, tl, hct, h10, h13⟩ := forward_head hl body
+      obtain ⟨fr, hp⟩ := forward_request_roundtrip_nofold r body (ms.map fun m => forwardRequest m.1 m.2).flatten hv hl hnf hb
+      have hmap : r.fields.map (fun f => (f.1, Ref.unfold f.2)) = r.fields := by
+        have : ∀ f ∈ r.fields, (fun f : Field => (f.1, Ref.unfold f.2)) f = f := by
+          intro f hf; simp [unfold_plain (hnf f hf)]
+        rw [List.map_congr_left this]; simp
+      rw [hmap] at hp
+      simp only [List.map_cons, List.flatten_cons]
+      have hdata : forwardRequest r body ++ (ms.map fun m => forwardRequest m.1 m.2).flatten =
+          c :: (tl ++ (ms.map fun m => forwardRequest m.1 m.2).flatten) := by rw [hct]; rfl
+      rw [Ref.parseRequests.eq_def]
+      simp only
+      rw [hdata]
+      simp only [h10, h13, false_and, ↓reduceIte]
+      rw [← hdata, hp]
+      simp only
+      exact ⟨ih1, by simp [ih2]⟩
 
 /-- instances (the statement holds on concrete messages, and is not vacuous) -/
 example : Ref.parseRequest (forwardRequest ⟨[71,69,84], [], [], [47], sHttp11, [([72,111,115,116], [104]), (sCL, [51])]⟩ [97,98,99] ++ [88]) =
